@@ -13,6 +13,10 @@
  *   load <name>             cf_load_file:  ok|fail starts=<section_start log> live=<n> ## err=…
  *   set <sect> <key> <val>  cf_set:  1|0 live=<n> ## err=…
  *   get <sect> <key>        cf_get:  <hex>|nil
+ *   setself <sect> <key> <off>   cf_set(sect, key, cf_get(sect, key) + off) with the very pointer the
+ *                           library returned (cf_get_str returns the stored string itself, so the
+ *                           new value aliases the old one):  nil | range | 1|0 <cf_get afterwards>
+ *                           live=<n> ## err=…
  *   dump                    cf_get of a fixed list of (sect,key) ## raw non-zero variables
  *
  * Observed besides the results:
@@ -310,8 +314,9 @@ static bool dyn_set(void *base, const char *key, const char *val)
 	in_lib = 0;
 	for (i = 0; i < ndyn; i++) {
 		if (dyn[i].base == b && strcmp(dyn[i].key, key) == 0) {
+			char *nv = strdup(val);	/* val may point into the old value */
 			free(dyn[i].val);
-			dyn[i].val = strdup(val);
+			dyn[i].val = nv;
 			in_lib = save;
 			return true;
 		}
@@ -619,6 +624,24 @@ int main(int argc, char **argv)
 			r = cf_get(&cf, s, k, buf, sizeof buf);
 			end_lib();
 			put_cstr_hex(r); putchar('\n');
+			free(s); free(k);
+		} else if (nw == 4 && strcmp(w[0], "setself") == 0) {
+			char *s = arg_cstr(w[1]), *k = arg_cstr(w[2]); char *e; long off = strtol(w[3], &e, 10);
+			char buf[128], buf2[128]; const char *r; bool ok; long live;
+			if (!s || !k || *e || !*w[3] || off < 0 || off > 1000) { free(s); free(k); puts("bad-op"); continue; }
+			begin_lib();
+			r = cf_get(&cf, s, k, buf, sizeof buf);
+			if (!r) {
+				end_lib(); puts("nil");
+			} else if ((long)strlen(r) < off) {
+				end_lib(); puts("range");
+			} else {
+				ok = cf_set(&cf, s, k, r + off);
+				r = cf_get(&cf, s, k, buf2, sizeof buf2);
+				live = end_lib();
+				printf("%d ", ok ? 1 : 0); put_cstr_hex(r);
+				printf(" live=%ld ## err=%s\n", live, first_err ? first_err : "none");
+			}
 			free(s); free(k);
 		} else if (nw == 1 && strcmp(w[0], "dump") == 0) {
 			const char *(*d)[2] = cur_schema == 0 ? dump0 : cur_schema == 2 ? dump2 : dump1;
